@@ -36,6 +36,9 @@ void cbs3 (mixed a, mixed b) { x3 = a; }
 void cbe (mixed a, mixed b) { error ("c06 call_out callback\n"); }
 void cbd (mixed a, mixed b) { destruct (this_object ()); }
 
+// a call of the inherited function (F_CALL_INHERITED)
+mixed call_base (mixed x) { return ::base_fn (x); }
+
 // function pointer with one bound argument
 mixed mkfun (mixed a) { return (: cb, a :); }
 
